@@ -64,6 +64,17 @@ def check_definition(case):
     D = stft_ref.documented_dft_size(L, spec["pad"])
     x = make_signal(case["sig"])
     N = len(x)
+    pr = case.get("prior")
+    if pr:
+        # the instance may have been used before (another utterance, whole or in chunks)
+        y = make_signal(pr["sig"])
+        if pr.get("chunked"):
+            h = len(y) // 2
+            call("compute_chunk (earlier utterance)", comp.compute_chunk, y[:h])
+            call("compute_chunk (earlier utterance)", comp.compute_chunk, y[h:])
+            call("finalize (earlier utterance)", comp.finalize)
+        else:
+            call("compute_full (earlier utterance)", comp.compute_full, y)
     got = call("compute_full", comp.compute_full, x)
     ncoef = bank.num_filts + int(spec["include_energy"])
     require(comp.num_coeffs == ncoef, "num_coeffs {} != {}", comp.num_coeffs, ncoef)
@@ -138,8 +149,12 @@ def _cases(draw, rates=(1000,), max_len=64):
             st.integers(L // 2 + 1, 3 * L + 3),
         )
     )
+    if draw(st.integers(0, 24)) == 0:
+        n = draw(st.sampled_from([4097, 10000, 16385, 20011]))  # many frames: block-wise implementations differ only here
     sig = draw(signal_specs(st.just(n)))
-    return {"comp": comp, "sig": sig}
+    prior = draw(st.one_of(st.none(), st.none(), st.fixed_dictionaries({
+        "sig": signal_specs(st.integers(0, 3 * L)), "chunked": st.booleans()})))
+    return {"comp": comp, "sig": sig, "prior": prior}
 
 
 @st.composite
